@@ -287,30 +287,12 @@ func (te *TemplateEngine) parseTemplate(template *Template) error {
 		baseName := extendsMatches[1]
 		baseTemplate, err := te.getTemplateInternal(baseName)
 		if err == nil {
+			// 块重写在渲染时沿继承链收集（见 renderTemplate），加载子模板不修改父模板
 			template.Parent = baseTemplate
-			// 处理块重写
-			te.processBlockOverrides(template, baseTemplate)
 		}
 	}
 
 	return nil
-}
-
-// processBlockOverrides 处理块重写
-func (te *TemplateEngine) processBlockOverrides(childTemplate, parentTemplate *Template) {
-	// 遍历子模板的块定义，检查是否重写父模板的块
-	for blockName, childBlock := range childTemplate.DefinedBlocks {
-		if parentBlock, exists := parentTemplate.DefinedBlocks[blockName]; exists {
-			// 标记父模板块被重写
-			parentBlock.IsOverridden = true
-			parentBlock.Content = childBlock.Content
-		}
-	}
-
-	// 递归处理父模板的父模板
-	if parentTemplate.Parent != nil {
-		te.processBlockOverrides(childTemplate, parentTemplate.Parent)
-	}
 }
 
 // RenderToDocument 渲染模板到新文档
@@ -351,26 +333,22 @@ func (te *TemplateEngine) RenderToDocument(templateName string, data *TemplateDa
 
 // renderTemplate 渲染模板
 func (te *TemplateEngine) renderTemplate(template *Template, data *TemplateData) (string, error) {
-	var content string
-
-	// 处理继承：如果有父模板，使用父模板作为基础
-	if template.Parent != nil {
-		// 渲染父模板作为基础内容
-		parentContent, err := te.renderTemplate(template.Parent, data)
-		if err != nil {
-			return "", err
+	// 处理继承：沿继承链找到最上层的模板作为基础内容，并收集各级子模板的块重写
+	// （越靠近当前模板优先级越高）。父模板不会被修改：同一个父模板可以被多个子模板继承，
+	// 也可以单独渲染，结果互不影响。
+	overrides := make(map[string]string)
+	root := template
+	for root.Parent != nil {
+		for name, block := range root.DefinedBlocks {
+			if _, exists := overrides[name]; !exists {
+				overrides[name] = block.DefaultContent
+			}
 		}
-		content = parentContent
-
-		// 应用子模板的块重写到父模板内容中
-		content = te.applyBlockOverrides(content, template)
-	} else {
-		// 没有父模板，直接使用当前模板内容
-		content = template.Content
+		root = root.Parent
 	}
 
-	// 渲染块定义
-	content = te.renderBlocks(content, template, data)
+	// 渲染块定义（应用子模板的块重写）
+	content := te.renderBlocks(root.Content, root, overrides)
 
 	// 渲染变量
 	content = te.renderVariables(content, data.Variables)
@@ -387,26 +365,8 @@ func (te *TemplateEngine) renderTemplate(template *Template, data *TemplateData)
 	return content, nil
 }
 
-// applyBlockOverrides 将子模板的块重写应用到父模板内容中
-func (te *TemplateEngine) applyBlockOverrides(content string, template *Template) string {
-	// 将子模板的块内容替换父模板中对应的块占位符
-	blockPattern := regexp.MustCompile(`(?s)\{\{#block\s+"([^"]+)"\}\}.*?\{\{/block\}\}`)
-
-	return blockPattern.ReplaceAllStringFunc(content, func(match string) string {
-		matches := blockPattern.FindStringSubmatch(match)
-		if len(matches) >= 2 {
-			blockName := matches[1]
-			// 如果子模板中定义了这个块，使用子模板的内容
-			if childBlock, exists := template.DefinedBlocks[blockName]; exists {
-				return childBlock.Content
-			}
-		}
-		return match // 保持原样
-	})
-}
-
 // renderBlocks 渲染块定义
-func (te *TemplateEngine) renderBlocks(content string, template *Template, data *TemplateData) string {
+func (te *TemplateEngine) renderBlocks(content string, template *Template, overrides map[string]string) string {
 	blockPattern := regexp.MustCompile(`(?s)\{\{#block\s+"([^"]+)"\}\}(.*?)\{\{/block\}\}`)
 
 	return blockPattern.ReplaceAllStringFunc(content, func(match string) string {
@@ -415,16 +375,15 @@ func (te *TemplateEngine) renderBlocks(content string, template *Template, data 
 			blockName := matches[1]
 			blockContent := matches[2]
 
-			// 检查是否有定义的块
-			if block, exists := template.DefinedBlocks[blockName]; exists {
-				// 如果块被重写，使用重写的内容，否则使用默认内容
-				if block.IsOverridden {
-					return block.Content
-				}
-				return block.DefaultContent
+			// 子模板重写了这个块：使用重写的内容
+			if overridden, exists := overrides[blockName]; exists {
+				return overridden
 			}
 
-			// 如果没有定义块，使用原始内容
+			// 否则使用块的默认内容
+			if block, exists := template.DefinedBlocks[blockName]; exists {
+				return block.DefaultContent
+			}
 			return blockContent
 		}
 		return match
